@@ -378,6 +378,12 @@ def api_scenario(rng):
         r = rng.random()
         if not running:
             if r < 0.45:
+                if rng.random() < 0.12:
+                    # a device fault in the coming acquisition; the later calls of the session (start without another configure,
+                    # stop, abort, configure) then meet devices the HAL has taken out of the armed state
+                    d = rng.randrange(2) if two else 0
+                    prog.append(rng.choice(["camfail %d %d" % (d, rng.randint(0, 6)), "camfail %d %d" % (d, rng.randint(0, 6)),
+                                            "stofail %d %d" % (d, rng.randint(0, 3)), "camstartfail %d" % d, "stostartfail %d" % d]))
                 prog.append("start")
                 running = True
                 unbounded = cfg_unb[0]
@@ -535,9 +541,10 @@ def oracle(prog, lines, meta):
             add("C08", k, msg)
 
     def dev_event(key, ev, line):
-        d = dev.setdefault(key, dict(open=False, closed=False, running=False, starts=0, stops=0))
+        d = dev.setdefault(key, dict(open=False, closed=False, running=False, starts=0, stops=0, armed=False))
         if ev == "open":
             d["open"] = True
+            d["armed"] = False              # a freshly opened device awaits configuration
             if taint_open:
                 tainted.add(key)
             return
@@ -550,14 +557,24 @@ def oracle(prog, lines, meta):
             d["closed"] = True
             if d["running"]:
                 add8(key, "close-while-running", "device %s closed while running (no stop after its last start): %s" % (key, line))
+        elif ev == "set":
+            d["armed"] = "REJECTED" not in line
+        elif ev == "unarm":
+            d["armed"] = False
         elif ev == "start":
             if d["running"]:
                 add8(key, "start-while-running", "device %s started while already running" % key)
+            elif not d["armed"]:
+                # "is started only when armed": the device was opened and never (successfully) configured, or it failed (frame call,
+                # append, start) and has not been configured since
+                add8(key, "start-when-not-armed", "device %s started although it is not armed (no accepted configuration since it was opened or since its last failure): %s" % (key, line))
             d["running"] = True
             d["starts"] += 1
         elif ev == "stop":
             if not d["running"]:
                 add8(key, "stop-without-start", "device %s stopped without a preceding start (or stopped twice)" % key)
+            else:
+                d["armed"] = not d.pop("unarm_at_stop", False)   # a stop that ends a run leaves the device armed, unless the run ended in a failed frame call
             d["running"] = False
             d["stops"] += 1
         elif ev in ("append", "get_frame"):
@@ -664,15 +681,22 @@ def oracle(prog, lines, meta):
             kind = key[:3]
             idx = int(key[3])
             ev = w[2]
-            if ev in ("open", "close", "start", "stop"):
+            if ev in ("open", "close", "start", "stop", "set"):
                 if ev == "start" and "FAIL" in l:
-                    pass
+                    if key in dev and not dev[key]["closed"] and not dev[key]["running"] and not dev[key]["armed"]:
+                        dev_event(key, "start", l)          # the verdict on the attempt; the device did not start
+                        dev[key]["running"] = False
+                        dev[key]["starts"] -= 1
+                    dev_event(key, "unarm", l)              # a failed start leaves the device awaiting configuration
                 else:
                     dev_event(key, ev, l)
             elif ev in ("append", "get_frame"):
                 dev_event(key, ev, l)
                 if ev == "append" and "FAIL" in l:
                     dev[key]["running"] = False     # a failing append returns a non-running state: the device stopped itself
+                    dev[key]["armed"] = False
+                if ev == "get_frame" and "FAIL" in l:
+                    dev[key]["unarm_at_stop"] = True        # the HAL stops the camera and leaves it awaiting configuration
             acq = None
             for s in cur:
                 a = cur[s]
@@ -927,6 +951,8 @@ def to_events(prog, lines):
     IDX = {"A": 0, "B": 1, "Bad": 2}
 
     cur_cam = {}         # stream -> index of the camera it last configured successfully (A / B)
+    unarmed = set()      # (kind, instance) of open devices that failed (frame call, append, start) and were not configured since
+    open_devs = set()
 
     def camidx(s):
         c = cfg.get(s, {}).get("cam")
@@ -1018,6 +1044,10 @@ def to_events(prog, lines):
                 valid = [s for s in (0, 1) if v[s]]
                 emit("G configure %d %d %d %d" % (v[0], v[1], cfg.get(0, {}).get("n", 0), cfg.get(1, {}).get("n", 0)), i)
             elif w[1] == "start" and w[2] == "call":
+                if ev.scope is None and any(owner.get(d) in valid for d in unarmed & open_devs):
+                    # the runtime refuses such a start before it touches the device (the oracle checks that it does); the refusal
+                    # paths are not in the model
+                    ev.scope = "acquire_start with a device that failed and was not configured since (not armed)"
                 pending = [(s, r) for s in valid for r in ("sink", "filt", "src")]
                 emit("G startcall", i)
             elif w[1] == "start":
@@ -1059,6 +1089,15 @@ def to_events(prog, lines):
             op = w[2]
             s = stream_for(kind, idx, inst, op == "open")
             a = actor(tid, s)
+            if op == "open":
+                open_devs.add((kind, inst))
+                unarmed.discard((kind, inst))
+            elif op == "close":
+                open_devs.discard((kind, inst))
+            elif op == "set" and "REJECTED" not in l:
+                unarmed.discard((kind, inst))
+            elif "FAIL" in l and op in ("start", "append", "get_frame"):
+                unarmed.add((kind, inst))
             if op == "set" and "REJECTED" in l:
                 continue      # the device refused the settings: nothing changed; the runtime's retry follows
             if op in ("open", "close", "set"):
